@@ -259,6 +259,11 @@ func (c *FCGIClient) writePairs(recType uint8, pairs map[string]string) error {
 		if m > maxWrite {
 			// param data size exceed 65535 bytes"
 			vl := maxWrite - encodedSizeLen(len(k)) - 4 - len(k)
+			if vl < 0 {
+				// the name alone does not fit a record (a request header
+				// field with a name of some 65 KB): the pair cannot be sent
+				continue
+			}
 			v = v[:vl]
 		}
 		n := encodeSize(b, uint32(len(k)))
